@@ -855,13 +855,13 @@ impl<M: MetaT> SimLayer<'_, M> {
             return Err(SimErr(err_code(self.id, 2)));
         }
         for f in &self.res.files {
-            if let Err(e) = write_file(layer_path, f) {
-                if FAULT_MODE.load(std::sync::atomic::Ordering::SeqCst) {
-                    // under an injected fault the buildpack's own write may be the one that
-                    // fails; a buildpack would propagate that as its error
-                    return Err(SimErr(err_code(self.id, 6)));
-                }
-                harness(Err(e));
+            if write_file(layer_path, f).is_err() {
+                // The buildpack's own write failed: under an injected fault it may be the
+                // faulted call; without one the directory libcnb handed to the callback is
+                // not in the state it promised (e.g. left-overs of an incomplete delete).
+                // Either way a buildpack would propagate its error; the checker then sees a
+                // buildpack error where the model expects none and reports it.
+                return Err(SimErr(err_code(self.id, 6)));
             }
         }
         let mut execd = HashMap::new();
